@@ -141,3 +141,42 @@ func TestF13_BackupMMap(t *testing.T) {
 		t.Fatal(err)
 	}
 }
+
+// F13 (after repair): Backup under MMap, then Sync, big Put, reopen of both directories.
+func TestF13_AfterBackupUsable(t *testing.T) {
+	db := open(t, func(o *kv.Options) { o.FileIOType = fio.MemoryMap })
+	_ = db.Put([]byte("a"), []byte("b"))
+	d, _ := os.MkdirTemp("", "bk")
+	if err := db.Backup(d); err != nil {
+		t.Fatal(err)
+	}
+	if err := db.Sync(); err != nil {
+		t.Fatalf("sync after backup: %v", err)
+	}
+	if v, err := db.Get([]byte("a")); err != nil || string(v) != "b" {
+		t.Fatalf("get after backup: %q %v", v, err)
+	}
+	if err := db.Backup(d); err != nil {
+		t.Fatal(err)
+	}
+	if err := db.Put([]byte("big"), make([]byte, 1<<20)); err != nil {
+		t.Fatal(err)
+	}
+	if err := db.Backup(d); err != nil {
+		t.Fatal(err)
+	}
+	if err := db.Close(); err != nil {
+		t.Fatalf("close: %v", err)
+	}
+	o := kv.DefaultOptions
+	o.DirPath = d
+	o.FileIOType = fio.MemoryMap
+	db2, err := kv.Open(o)
+	if err != nil {
+		t.Fatal(err)
+	}
+	if v, err := db2.Get([]byte("big")); err != nil || len(v) != 1<<20 {
+		t.Fatalf("backup get: %d %v", len(v), err)
+	}
+	_ = db2.Close()
+}
